@@ -12,7 +12,7 @@ TITLE = 'timeseries operators = pointwise operation on aligned operands'
 LEVEL = 'exploration'
 TECHNIQUE = 'runtime monitoring: alignment model + pointwise float arithmetic (same numpy float64 operations, exact comparison), commutativity and no-inf law monitors'
 LEVEL_TEXT = 'Held on the operand tuples explored for both index and column policies and all listed operators/aggregates. A check says held on K observed executions, never verified.'
-LEVEL_NOTE = "Trusted: numpy float64 scalar arithmetic as the pointwise reference; fill methods are C03's; one-column frames are not fed to min_/max_."
+LEVEL_NOTE = "Trusted: numpy float64 scalar arithmetic as the pointwise reference; fill methods are C03's; min_/max_ get at most one one-column frame per call (two differently named ones are aligned by label by pandas)."
 RULE = ('random tuples of 2-4 operands among Series, 1-3 column DataFrames and scalars on a 12-day grid (overlapping, disjoint, empty indices; values in {-2..3, 0, NaN}), both index '
         'policies x both column policies, operators add/sub/mul/div/pow/gt/ge/lt/le/min/max and df_sum/df_mean/df_count; non-trivial = partially overlapping indices with a zero or NaN in '
         'the overlap, or differing column sets; distinct = canonical hash')
@@ -389,10 +389,15 @@ def gen_case(rng):
     if all(k == 'scalar' for k in kinds):
         kinds[0] = 'series'
     if op in ('min', 'max'):
-        kinds = [k if k not in ('scalar', 'frame1') else 'series' for k in kinds]   # differently named one-column frames are aligned by name by numpy/pandas: outside the statement
+        kinds = [k if k != 'scalar' else 'series' for k in kinds]
+        seen1 = False
+        for i_, k_ in enumerate(kinds):     # two one-column frames with different names are aligned by label by numpy/pandas (outside the statement): keep at most one
+            if k_ == 'frame1':
+                if seen1:
+                    kinds[i_] = 'series'
+                seen1 = True
         if any(k == 'frameN' for k in kinds):
-            kinds = ['frameN' if k != 'series' else k for k in kinds]
-            same_cols = True
+            same_cols = True         # a one-column frame beside wide ones is broadcast like a series
     if op == 'pow':
         kinds = [k for k in kinds]
     operands = [gen_operand(rng, k, names_pool) for k in kinds]
